@@ -354,7 +354,8 @@ func (g *generator) getDiscriminator(schema *openapi3.Schema) (string, map[strin
 }
 
 func (g *generator) getRefName(value string) (string, string) {
-	rgx := regexp.MustCompile(`(../)*(\w*/)*(.*).(json|yml)`)
+	// references into another file: `./refs/refs.json/#/components/schemas/A`, `../common.yml`
+	rgx := regexp.MustCompile(`(\.\./)*(\w*/)*(.*)\.(json|yml)($|[/#])`)
 	group := rgx.FindStringSubmatch(value)
 
 	parts := strings.Split(value, "/")
